@@ -45,7 +45,8 @@ func (s *JavaRefactorListener) EnterQualifiedNameList(ctx *QualifiedNameListCont
 	for _, qualified := range ctx.AllQualifiedName() {
 		startLine := ctx.GetStart().GetLine()
 		stopLine := ctx.GetStop().GetLine()
-		field := model.JField{Name: qualified.GetText(), Source: node.Pkg, StartLine: startLine, StopLine: stopLine}
+		// Outer.Inner references the imported name Outer
+		field := model.JField{Name: strings.Split(qualified.GetText(), ".")[0], Source: node.Pkg, StartLine: startLine, StopLine: stopLine}
 		node.AddField(field)
 	}
 }
@@ -54,7 +55,8 @@ func (s *JavaRefactorListener) EnterCatchType(ctx *CatchTypeContext) {
 	for _, qualified := range ctx.AllQualifiedName() {
 		startLine := ctx.GetStart().GetLine()
 		stopLine := ctx.GetStop().GetLine()
-		field := model.JField{Name: qualified.GetText(), Source: node.Pkg, StartLine: startLine, StopLine: stopLine}
+		// Outer.Inner references the imported name Outer
+		field := model.JField{Name: strings.Split(qualified.GetText(), ".")[0], Source: node.Pkg, StartLine: startLine, StopLine: stopLine}
 		node.AddField(field)
 	}
 }
@@ -99,7 +101,8 @@ func (s *JavaRefactorListener) EnterAnnotation(ctx *AnnotationContext) {
 	if ctx.QualifiedName() == nil {
 		return
 	}
-	annotation := ctx.QualifiedName().GetText()
+	// @Value.Immutable references the imported name Value
+	annotation := strings.Split(ctx.QualifiedName().GetText(), ".")[0]
 
 	startLine := ctx.GetStart().GetLine()
 	stopLine := ctx.GetStop().GetLine()
